@@ -535,7 +535,7 @@ theorem putTail_sim (hs : Sim cfg o now st m) (hd : o.cache ≠ .delay) (r : Rec
 theorem ifPut_sim (hs : Sim cfg o now st m) (hd : o.cache ≠ .delay) (r : Rec) (isNew : Bool) :
     Sim cfg o now (ifPut cfg o st r now isNew).1 (KV.put cfg.backend o m r now isNew).1 ∧
     KV.outEq cfg.backend (ifPut cfg o st r now isNew).2 (KV.put cfg.backend o m r now isNew).2 := by
-  unfold ifPut KV.put
+  unfold ifPut KV.put KV.blocked
   by_cases ha : o.all = true
   · simp only [ha, Bool.not_true, Bool.false_eq_true, if_false, Bool.false_and]
     obtain ⟨h1, h2⟩ := putTail_sim hs hd { r with md := o.apply (if isNew then r.md.reset else r.md) now }
